@@ -35,6 +35,11 @@ def corpus(rng, tier):
         '@import "a.css" screen and (min-width: 10px);\n@import url(b.less);', '.a{filter:progid:DXImageTransform.Microsoft.gradient(startColorstr=\'#80000000\', endColorstr=\'#80000000\');}',
         '@media screen and (-webkit-min-device-pixel-ratio: 2), (min-resolution: 192dpi){.x{y:z}}', '.x{width:~`js`}', '.a { .b; }\n.c { .d(); }',
         '#abc{color:#abcdef; x:#ab} #main .e{f:#12}', '.a{b:c}}', '.a{{b:c}', 'é{x:y}', '.a{x:"unterminated}', '.a{x:\'a@{b}c\' d}', '$x{y:z}', '.a{x:1 ^ 2}',
+        '.a{.undefined;}\n.c{.alsoundefined;}', '.a{.q;}\n.c{.a .z;}', '.a{.q; .r();}\n.b{.a;}\n.c{.b .q;}',
+        '.c{left:-(1 ) * -(1 + 1)}', '.c{f:%("rgb(%d, %#d, %d)", 1, 2, 3)}', '.c{f:%("%d %d", 1)}', '.c{f:%("100% %d", 1)}',
+        '.a{t: f(, 1)}', '.a{t: darken(#fff)}', '.a{t: round()}', '.a{t: mix(#fff)}', '.a{t: escape()}', '.a{t: darken(, 10%)}',
+        '.m(@i){.s-@{i}{top:0}}\n.a{.m(@i: 3);}', '.m(@i){.n-@{i}{top:0}}\n.m(@i: 7);',
+        '.a{-@v: 1px}', '-@v: 1px;\n.a{top:0}', '.a{--@bg: #e0e0e0;}',
         '.a:not(.b):nth-child(2n+1){x:y}', '.a[href^="http"]{x:y}', '@font-face{font-family:x}', '.a{x:@@y; z:@{w}}', '--x{--y:1}', '.a{-moz-x:1;--v:2}',
         '@keyframes k{from{a:b}50%{c:d}to{e:f}}', '.a{width:calc(100% - 10px)}', '.a{b:e("%d", 1) %("%s", x)}', '/* c */ // d\n.a{/* e */b:c // f\n}',
         '.a\n{\n  b\n:\nc\n;\n}', '\t.a\t{\tb\t:\tc\t}\t', '.a{b:c;;}', '', ' ', '\n\n', '.a{b:!important}', '.a{b: ! important}',
@@ -112,8 +117,10 @@ def real_streams(text):
             verdict = ['error', ['eof', None]]
         elif 'Illegal character' in r[2]:
             verdict = ['illegal', r[2][:80]]
-        else:
+        elif 'SyntaxError' in r[3]:
             verdict = ['accept', r[1] + ': ' + r[2][:80]]       # an evaluation error: the text was accepted by the parser
+        else:
+            verdict = ['escaped', r[1] + ': ' + r[2][:200]]     # neither a result nor a CompilationError / SyntaxError
     else:
         verdict = ['timeout', None]
     return raw, raw_end, flt, flt_end, verdict
@@ -135,7 +142,7 @@ def run(chk, rng, tier, want=('raw', 'filtered', 'parse')):
     try:
         ans = C.Driver().run(lines)
     except Exception as e:
-        return len(texts), [{'front': 'driver failed: %r' % e}]
+        return len(texts), [{'front': 'driver failed: %r' % e}], []
     dis = []
     stats = {'texts': len(texts), 'raw_tokens': 0, 'illegal': 0, 'parse_accept': 0, 'parse_error': 0, 'parse_compared': 0}
     for k, ((name, text), (raw, raw_end, flt, flt_end, verdict)) in enumerate(zip(texts, res)):
@@ -196,4 +203,6 @@ def run(chk, rng, tier, want=('raw', 'filtered', 'parse')):
             else:
                 dis.append({'front': 'parse verdict', 'name': name, 'text': text[:600], 'model': mp, 'real': verdict})
     chk.cov.setdefault('front_end_on_text', {}).update(stats)
-    return len(texts), dis
+    escapes = [{'name': name, 'source': text, 'exception': v[1]} for (name, text), (_a, _b, _c, _d, v) in zip(texts, res) if v[0] in ('escaped', 'timeout')]
+    chk.cov['front_end_on_text']['escaped_exceptions'] = len(escapes)
+    return len(texts), dis, escapes
